@@ -178,7 +178,7 @@ struct ParserWorld : World {
 			}
 		};
 		// fault-free reference execution
-		uint64_t base_allocs = 0; int base_rc;
+		uint64_t base_allocs = 0; int base_rc; std::vector<Snap> base_tree;
 		{
 			node root; std::vector<Snap> before; make_target(root, before);
 			size_t live_before = ledger_live(); uint64_t mark = ledger_mark();
@@ -186,6 +186,7 @@ struct ParserWorld : World {
 			base_allocs = o.allocs; base_rc = o.rc;
 			log.ev("PARSE fault-free -> %d reads=%llu allocs=%llu line=%zu", o.rc, (unsigned long long) o.reads, (unsigned long long) o.allocs, o.line);
 			judge("fault-free parse", 0, root, before, o, live_before, mark, text.size());
+			{ size_t guard = 0; snapshot(root.children, 0, base_tree, guard); }
 			st.state(300, o.rc < 0 ? 0 : 1, (uint64_t) (fmt.size() > 1 ? fmt[1] : '*') + 256 * (pre.empty() ? 0 : 1));
 			st.hit(o.rc < 0 ? "parse:rejected" : "parse:accepted");
 			{ Sut s; mpt_node_clear(&root); }
@@ -231,7 +232,17 @@ struct ParserWorld : World {
 				if (kind == 3 && o.fired) st.hit("fault:allocfail"); else if (kind == 1) st.hit("fault:eof"); else if (kind == 2) st.hit("fault:read_error");
 				log.ev("PARSE %s at %zu -> %d reads=%llu", kn, at, o.rc, (unsigned long long) o.reads);
 				judge(kn, at, root, before, o, live_before, mark, kind == 1 ? at : text.size());
-				if (kind == 2 && o.rc >= 0 && at < text.size() && o.reads > at) st.hit("probe:read_error_reported_as_success");
+				// a fault the parse met is no end of input: the parse fails, or (an allocation the parser can do without) the result is the fault-free one
+				if (kind == 2 && o.rc >= 0 && at < text.size() && o.reads > at) {
+					st.hit("probe:read_error_reported_as_success");
+					fail("error-swallowed", "read error at %zu of %zu characters: the parse reports success (%d) on the part of the text it got", at, text.size(), o.rc);
+				}
+				if (kind == 3 && o.fired && o.rc >= 0) {
+					std::vector<Snap> got; size_t guard = 0; snapshot(root.children, 0, got, guard);
+					if (base_rc < 0 || !(got == base_tree)) { size_t d = 0; while (d < got.size() && d < base_tree.size() && got[d] == base_tree[d]) ++d;
+						fail("error-swallowed", "allocation failure %zu: the parse reports success (%d) but its result (%zu entries) differs from the fault-free one (%d, %zu entries) at entry %zu", at, o.rc, got.size(), base_rc, base_tree.size(), d); }
+					st.hit("probe:alloc_failure_survived");
+				}
 				st.state(302 + kind, o.rc < 0 ? 0 : 1, (uint64_t) (at == 0) + 2 * (at == limit) + 4 * (pre.empty() ? 0 : 1));
 				{ Sut s; mpt_node_clear(&root); }
 				if (ledger_live()) fail("leak", "%s at %zu: after the parse (%d) and destruction of the tree %zu block(s) stay allocated: %s", kn, at, o.rc, ledger_live(), ledger_describe().c_str());
